@@ -666,7 +666,8 @@ var features = []feature{
 			{"floordiv-mod", "M // 3 % 2"}, {"parens-multiline-plus", "(\"a\" +\n     \"b\" +\n     S)"}, {"list-plus-multiline", "[\"a\"] + [\n    \"b\",\n] + L"},
 			{"index-of-call", "sorted(L)[0]"}, {"slice-str", "T[1:3]"}, {"method-chain", `T.replace("t", "u").upper().split(" ")`},
 			{"method-chain-multiline", "(T.replace(\"t\", \"u\")\n    .upper()\n    .strip())"}, {"lambda-call", "(lambda x: x + 1)(N)"}, {"lambda-default", "(lambda x, y = 2: x * y)(N)"},
-			{"and-or-value", `S and T or "z"`}, {"in-dict", `"k" in D`}, {"is-none", "None is None"}, {"tuple-single", "(N,)"}, {"tuple-empty", "()"}, {"tuple-pair-parens", "(N, M)"},
+			{"and-or-value", `S and T or "z"`}, {"is-not-then-or", "N is not None or B"}, {"is-not-then-and", "S is not None and not B"}, {"is-not-then-or-chain", "None is not None or not S or B"},
+			{"is-then-or", "N is None or B"}, {"not-in-then-and", `"a" not in L and B`}, {"is-not-in-cond", "1 if N is not None and B else 2"}, {"is-not-in-list", "[N is not None or B]"}, {"in-dict", `"k" in D`}, {"is-none", "None is None"}, {"tuple-single", "(N,)"}, {"tuple-empty", "()"}, {"tuple-pair-parens", "(N, M)"},
 			{"list-of-tuples", "[(1, 2), (3, 4)]"}, {"nested-empty", "[[], {}, ()]"}, {"call-multiline-args", "ident(\n    N\n)"}, {"cond-multiline", "(N if B\n    else M)"},
 		}
 		f := forms[g.f.Intn(len(forms))]
@@ -1025,6 +1026,11 @@ line
 			how = "unsorted" // duplicate outputs are an error in Please
 		}
 		l := g.seq("[", g.strList(pool, how), "]", 4)
+		if (c.arg == "deps" || c.arg == "visibility") && g.fp(0.3) {
+			d := g.strList(pool, "duplicate")
+			how = "duplicate-with-comment"
+			l = "[\n        " + d[0] + ",\n        " + d[1] + ",\n        # again\n        " + d[2] + ",\n    ]"
+		}
 		args := []string{g.kwarg("name", `"`+tn+`"`)}
 		switch c.rule {
 		case "build_rule", "genrule":
@@ -1061,7 +1067,7 @@ line
 	func(g *gen) (string, string, []string) {
 		n := g.name()
 		d := func(i int) string { return fmt.Sprintf("\"//defs:d%d\"", i) }
-		a, b, c := g.f.Intn(4), g.f.Intn(4), g.f.Intn(4)
+		a, b, c := g.f.Intn(8), g.f.Intn(8), g.f.Intn(8)
 		forms := [][2]string{
 			{"single", "subinclude($A)\n"}, {"two", "subinclude($A)\nsubinclude($B)\n"}, {"three", "subinclude($A)\nsubinclude($B)\nsubinclude($C)\n"}, {"two-blank-between", "subinclude($A)\n\n\nsubinclude($B)\n"},
 			{"two-comment-between", "subinclude($A)\n# then\nsubinclude($B)\n"}, {"two-suffix-comments", "subinclude($A)  # first\nsubinclude($B)  # second\n"}, {"stmt-between", "subinclude($A)\nq$N = SHARED\nsubinclude($B)\n"},
@@ -1083,9 +1089,16 @@ line
 				names = append(names, pre+n)
 			}
 		}
-		// what is observable afterwards: SHARED (defined by every defs file, last one wins)
+		// what is observable afterwards: SHARED (defined by every defs file, last one wins) and the
+		// private constant of every file that was subincluded (a dropped subinclude leaves it undefined)
 		if g.fp(0.7) {
-			s += n + " = SHARED\n"
+			obs := []string{"SHARED"}
+			for i := 0; i < 8; i++ {
+				if strings.Contains(s, fmt.Sprintf("//defs:d%d", i)) && !strings.Contains(f[0], "inside-if") {
+					obs = append(obs, fmt.Sprintf("D%d_ONLY", i))
+				}
+			}
+			s += n + " = [" + strings.Join(obs, ", ") + "]\n"
 			names = append(names, n)
 		}
 		return "subinclude/" + f[0], g.stmtLead(0) + s, names
@@ -1098,10 +1111,10 @@ line
 	},
 }
 
-// DefsFiles are the (static) subincluded files //defs:d0..d3; each defines SHARED.
+// DefsFiles are the (static) subincluded files //defs:d0..d7; each defines SHARED.
 func DefsFiles() map[string]string {
 	m := map[string]string{}
-	for i := 0; i < 4; i++ {
+	for i := 0; i < 8; i++ {
 		m[fmt.Sprintf("d%d", i)] = fmt.Sprintf("SHARED = \"from d%d\"\nD%d_ONLY = %d\n\ndef d%d_fn(x):\n    return x + %d\n", i, i, i, i, i)
 	}
 	return m
